@@ -1,6 +1,8 @@
 import Dcg.Proofs.SemValid
 import Dcg.Proofs.SemSound
 import Dcg.Proofs.SemDump
+import Dcg.Proofs.SemEnv
+import Dcg.Proofs.SemReport
 /-
 Helper lemmas for C03 / C04 / C14 (umbrella): SemBase (three-valued logic, association lists, the
 constraint tables as a decidable side condition), SemValid (C03), SemOpts (C14), SemSound (C04).
